@@ -245,7 +245,10 @@ def run_case(case):
         D = rec["raw"]
         req = codec.parse_request(net.transmissions[0]["data"], tr)
         if not codec.ref_validate(fr, req, D):
-            violations.append(viol(f"C01:accepted-invalid:{fr}:{cmd['op']}",
+            why = ""
+            if fr == "aa55":
+                why = ":" + "+".join(codec.ref_invalid_clauses_aa55(req, D))
+            violations.append(viol(f"C01:accepted-invalid:{fr}:{cmd['op']}{why}",
                                    f"{case['mclass']}: accepted {D.hex()} as answer to {net.transmissions[0]['data'].hex()}"))
         clean = {a for a in net.answers if a is not None}
         if D not in clean:
